@@ -15,6 +15,7 @@ import (
 	"sort"
 	"strings"
 	"time"
+	"unsafe"
 
 	"connectrpc.com/vanguard/internal/verifsim/verifsync"
 )
@@ -150,6 +151,7 @@ type World struct {
 	HitStepCap bool
 	schedHash  hashWriter
 	adjPairs   map[string]struct{}
+	endTok     hbToken
 	lastOpTask string
 	lastOp     string
 }
@@ -203,7 +205,9 @@ func (w *World) Logf(op string, format string, args ...any) uint64 {
 	}
 	w.schedHash.add(name + "|" + op + "|" + arg)
 	if w.lastOpTask != "" && w.lastOpTask != name {
-		w.adjPairs[w.lastOp+">"+op] = struct{}{}
+		if !raceMode { // (a map shared by all tasks: in the race build it would only produce reports about the simulator itself)
+			w.adjPairs[w.lastOp+">"+op] = struct{}{}
+		}
 	}
 	w.lastOpTask, w.lastOp = name, op
 	return w.seq
@@ -225,6 +229,7 @@ func (w *World) Spawn(name string, fn func()) *Task {
 			if r := recover(); r != nil {
 				t.failed = fmt.Sprintf("%v\n%s", r, debug.Stack())
 			}
+			w.endTok.release() // whoever waits for the world to finish (Run's caller) is ordered after every task's end
 			t.state = stDone
 			w.yieldCh.send(byte(ykDone))
 		}()
@@ -366,6 +371,14 @@ func (w *World) pick(rs []*Task) *Task {
 }
 
 // Run drives the world until all tasks are done, deadlock, or the step cap.
+// hbToken stands for the synchronisation a real program has where the simulator only has its scheduler: a child task
+// that finishes (or publishes something) releases, the task that waited for it acquires. Only the race build gives these
+// calls a meaning; they add exactly the happens-before edge a WaitGroup or channel would, and nothing else.
+type hbToken struct{ _ int64 }
+
+func (t *hbToken) release() { raceReleaseMerge(unsafe.Pointer(t)) }
+func (t *hbToken) acquire() { raceAcquire(unsafe.Pointer(t)) }
+
 // activeWorld is the world whose tasks are running (one at a time per process); the lock seams park their callers in it.
 var activeWorld *World
 
@@ -387,7 +400,7 @@ func init() {
 func (w *World) Run() {
 	activeWorld = w
 	verifsync.Epoch++
-	defer func() { activeWorld = nil }()
+	defer func() { activeWorld = nil; w.endTok.acquire() }()
 	for {
 		alldone := true
 		for _, t := range w.tasks {
